@@ -395,9 +395,15 @@ def task_ft(task):
     try:
         build()
     except Exception as e:
-        # the configuration cannot be constructed at all (transformed axis of length 1): outside the claim
-        return [{'unsupported': 'FourierTransform: ' + errname(e) + ' for a transformed axis of length 1'
-                 if 1 in [shape[a] for a in axes] else 'FourierTransform: ' + errname(e), 'abstract': abstract}]
+        # explicit rejection by the constructor (ValueError) of a configuration that the code cannot represent:
+        # a transformed axis of length 1 (no reciprocal space) or, should the guard be completed, a half-complex
+        # transform with an un-shifted axis.  Outside the claim.  Anything else is an observation.
+        if isinstance(e, ValueError) and (1 in [shape[a] for a in axes] or (hcflag and not all(shifts))):
+            return [{'unsupported': 'FourierTransform: constructor raises ValueError for %s'
+                     % ('a transformed axis of length 1' if 1 in [shape[a] for a in axes]
+                        else 'half-complex with an un-shifted axis'), 'abstract': abstract}]
+        ev = dict(cfg, k='tab', t='ft', src='odl', err=errname(e))
+        return [obs(ev, where('FourierTransform', 'construct'), cls_extras(shape, axes, shifts), conc, abstract, True)]
     ker = kernel_rows(case, strides)
     for mode in ('oop', 'ip'):
         ex = cls_extras(shape, axes, shifts, mode=mode)
@@ -618,7 +624,16 @@ def task_hist(task):
         try:
             rig = HistRig(conc, task.get('seed', 0))
         except Exception as e:
-            return [{'unsupported': '%s history rig: %s' % (hist_class(conc), errname(e)), 'abstract': ['hist', conc]}]
+            h0 = _h('a')
+            ev = {'k': 'hist', 'pre': h0, 'act': steps[0]['act'], 'post': h0, 'err': errname(e)}
+            where = {'class': hist_class(conc), 'impl': conc['impl'],
+                     'field': 'real' if conc['field'] == 'R' else 'complex',
+                     'halfcomplex': hcname(conc['field'], conc['hcflag']), 'clause': 'history'}
+            ex = cls_extras(tuple(conc['shape']), tuple(conc.get('axes', range(len(conc['shape'])))),
+                            None if conc['kind'] == 'dft' else [conc.get('shift', True)], how='construct')
+            ex['after'] = 'fresh'
+            return res + [obs(ev, where, ex, dict(conc, behaviour=[s['act'] for s in steps]),
+                              ['hist-rig', conc['kind'], conc['impl'], conc['field'], conc['hcflag']], True)]
         pre = rig.heap()
         seen = []
         for st in steps:
